@@ -51,6 +51,10 @@ Inductive case :=
        (elapsed_ms bound_ms : Z) (other_ok : bool)
 (* a client plugin in isolation *)
 | CPlug (p : hr_plugin) (o : hr_popts) (uq : hr_req) (reenc : bytes) (seen : c02_seen) (resp got : hr_resp)
+(* an upgraded (kind 1) or CONNECT (kind 2) exchange through the vhost port: the backend accepted, then
+   byte streams both ways (digests): what the user sent / the backend received, what the backend sent /
+   the user received *)
+| CTunnel (kind : Z) (accepted : bool) (up_sent up_recv down_sent down_recv : bytes)
 (* a request through frps (route rc) and then a plugin of frpc *)
 | CChain (rc : hr_route) (p : hr_plugin) (o : hr_popts) (plugin_client_ip : option bytes)
          (uq : hr_req) (reenc : bytes) (seen : c02_seen) (resp got : hr_resp).
@@ -157,6 +161,11 @@ Definition check_case (c : case) : Z :=
       else if negb (elapsed <=? bound) then 33
       else if negb other_ok then 34
       else 0
+  | CTunnel kind accepted us ur ds dr =>
+      if negb accepted then 41
+      else if negb (bytes_eqb us ur) then 42
+      else if negb (bytes_eqb ds dr) then 43
+      else 0
   | CPlug p o uq reenc seen resp got =>
       let i := c02_in_req uq in
       let pred := hr_plugin_backend_view p o reenc i in
@@ -203,3 +212,4 @@ Definition is_plug (p : hr_plugin) (c : case) : bool :=
   | _, _ => false
   end.
 Definition is_chain (c : case) : bool := match c with CChain _ _ _ _ _ _ _ _ _ => true | _ => false end.
+Definition is_tunnel (k : Z) (c : case) : bool := match c with CTunnel k' _ _ _ _ _ => k' =? k | _ => false end.
